@@ -525,7 +525,7 @@ func init() {
 									}
 									r.Fail("navigation|fully-indexed|"+d, core.W{"type": tn, "variant": vi, "src": s, "got": core.Short(got.String(), 300)})
 								}
-								if c.jval != nil && c.md != nil && lib.IsPrimitiveMsg(c.md) && c.md.Name() != "Xhtml" {
+								if c.jval != nil && c.md != nil && lib.IsPrimitiveMsg(c.md) {
 									vs := s + ".value"
 									gv := eval(vs)
 									kind := string(c.md.Name())
